@@ -72,6 +72,14 @@ static int _yr_scanner_scan_mem_block(
   YR_STRING* report_string = NULL;
   YR_RULE* rule = NULL;
 
+  // The pieces of a chained string found in a previous block can't be completed
+  // in this one: strings don't match across blocks, and the offsets of those
+  // unconfirmed matches are relative to their own block.
+  memset(
+      scanner->unconfirmed_matches,
+      0,
+      sizeof(YR_MATCHES) * rules->num_strings);
+
   while (i < block->size)
   {
     if (i % 4096 == 0 && scanner->timeout > 0)
